@@ -1,4 +1,5 @@
 //! Explorer for generated models: C01–C07, C15, C17, C20 (and C16/C19 drivers).
+mod c16;
 mod dynmodel;
 mod explorer;
 mod generated;
@@ -76,6 +77,28 @@ fn main() {
         std::process::exit(replay(&prop, &path, &reg));
     }
     let t0 = std::time::Instant::now();
+    if prop == "C16" {
+        let thorough = tier == "thorough";
+        let entries: Vec<(&dynmodel::Entry, Theory)> = reg.iter().map(|e| (e, Theory::from_json(e.ast_json)))
+            .filter(|(e, _)| only.as_ref().map_or(true, |o| o.split(',').any(|x| x == e.name))).collect();
+        let rs: Vec<(String, c16::C16Result)> = entries.par_iter().map(|(e, th)| (th.name.clone(), c16::run_theory(th, e, if thorough { 3 } else { 2 }, envu("VERIF_C16_CAP", if thorough { 400_000 } else { 20_000 }) as usize))).collect();
+        let mut violations = Vec::new(); let mut samples = Vec::new(); let mut per = Vec::new();
+        let (mut dbs, mut fams, mut nt) = (0u64, 0u64, 0u64);
+        let mut capped = false;
+        for (name, r) in rs {
+            dbs += r.dbs; fams += r.families; nt += r.nontrivial; capped |= r.capped;
+            violations.extend(r.violations);
+            if samples.len() < 4 { samples.extend(r.samples.into_iter().take(1)); }
+            per.push(json!({"theory": name, "rule_families": r.families, "labelled_databases": r.dbs, "capped": r.capped}));
+        }
+        let res = json!({"evaluations": dbs, "distinct_nontrivial": nt, "rule_families": fams,
+            "rule": "for every rule family with a non-empty premise of every corpus theory: every labelled database (each tuple/element old or new) over two elements per type with at most N rows per premise relation is built on the real model and one real rule pass is run; non-trivial = databases with at least min(2, #atoms) rows",
+            "max_rows_per_relation": if thorough { 3 } else { 2 }, "per_theory": per, "exhaustive": !capped, "samples": samples, "violations": violations,
+            "wall_s": t0.elapsed().as_secs_f64()});
+        let text = serde_json::to_string_pretty(&res).unwrap();
+        match arg(&args, "--out") { Some(p) => std::fs::write(p, text).expect("write out"), None => println!("{text}") }
+        return;
+    }
     let oracles = oracles_for(&prop);
     let entries: Vec<(&dynmodel::Entry, Theory)> = reg.iter().map(|e| (e, Theory::from_json(e.ast_json)))
         .filter(|(e, th)| applicable(&prop, th) && only.as_ref().map_or(true, |o| o.split(',').any(|x| x == e.name))).collect();
@@ -101,7 +124,7 @@ fn main() {
         if oracles.collect_transcripts {
             let mut h = std::collections::hash_map::DefaultHasher::new();
             use std::hash::{Hash, Hasher};
-            let mut t = r.transcripts.clone(); t.sort();
+            let mut t: Vec<(u64, u64)> = r.transcripts.iter().map(|x| (x.0, x.1)).collect(); t.sort();
             t.hash(&mut h);
             transcripts.insert(r.theory.clone(), json!({"histories": t.len(), "digest": format!("{:016x}", h.finish()),
                 "first": t.iter().take(3).map(|(a, b)| format!("{a:016x}:{b:016x}")).collect::<Vec<_>>() }));
@@ -133,6 +156,15 @@ fn main() {
                     }
                 }
             }
+        }
+    }
+    if let Some(path) = arg(&args, "--dump-transcripts") {
+        use std::io::Write;
+        let mut f = std::io::BufWriter::new(std::fs::File::create(path).expect("dump file"));
+        for r in &results {
+            let mut t = r.transcripts.clone();
+            t.sort();
+            for (h, tr, text) in t { writeln!(f, "{}\t{:016x}\t{:016x}\t{}", r.theory, h, tr, text).unwrap(); }
         }
     }
     let nt = if prop == "C03" { groups_nt } else { nontrivial };
